@@ -275,6 +275,18 @@ pub fn gate_release(name: &str) {
     }
 }
 
+/// Release everything parked at the gate but stay armed (single-stepping).
+pub fn gate_step(name: &str) {
+    if let Some(g) = gate_get(name) {
+        {
+            let mut s = g.state.lock().unwrap();
+            s.released = s.parked;
+        }
+        g.cv.notify_all();
+        g.notify.notify_waiters();
+    }
+}
+
 pub fn gates_clear() {
     let names: Vec<String> = gates().lock().unwrap().keys().cloned().collect();
     for n in names {
